@@ -351,6 +351,10 @@ pub fn mk_side_cache(pd: u32, size: u64, total: u8, level: u8, assoc: u8, policy
     for h in handles {
         c.add_smbios_handle(*h);
     }
+    if handles.len() == 65_535 {
+        // the 65536th handle is refused (C18) and must leave the structure as it was
+        let _ = catch_unwind(AssertUnwindSafe(|| c.add_smbios_handle(0x7777)));
+    }
     c
 }
 
@@ -628,6 +632,12 @@ pub fn mk_rqsc_ctl(ty: u8, reg: &GasV, rcid: u32, mcid: u32, flags: u16, res: &[
             id,
         ));
     }
+    // a resource that cannot fit the controller's 16-bit length is refused and must leave the
+    // controller as it was (injected on some controllers so that every table oracle sees it)
+    if rcid % 4 == 1 {
+        let big = rqsc::ResourceStructure::new(rqsc::ResourceType::Memory, 7, rqsc::ResourceID::VendorSpecific(0x80, vec![0x5a; 65_500]));
+        let _ = catch_unwind(AssertUnwindSafe(|| c.add_resource(big)));
+    }
     c
 }
 
@@ -726,7 +736,9 @@ pub fn apply_fadt(b: fadt::FADTBuilder, s: &FadtSet) -> fadt::FADTBuilder {
                 38 => b.fadt_minor_version = v as u8,
                 39 => b.x_firmware_ctrl = v.into(),
                 40 => b.x_dsdt = v.into(),
-                _ => b.hypervisor_vendor_identity = v.into(),
+                41 => b.hypervisor_vendor_identity = v.into(),
+                // the pub checksum field: whatever the caller leaves there, finalize() recomputes it
+                _ => b.checksum = v as u8,
             }
             b
         }
@@ -945,6 +957,10 @@ impl Live {
                 let mut x = cedt::XorInterleaveMath::new(mk_gran(*gran));
                 for m in maps {
                     x.add_xormap(*m);
+                }
+                if maps.len() == 255 {
+                    // the 256th map is refused (C18) and must leave the structure as it was
+                    let _ = catch_unwind(AssertUnwindSafe(|| x.add_xormap(0x7777)));
                 }
                 t.add_xor_interleave_math(x)
             }
